@@ -34,6 +34,10 @@ def run(ctx):
                                                  hubsizes="{5}", hubdels=1, huball=False), "hub-5", timeout=3000)
         hub += ctx.tlc_gen("MC_CypherWrite", gen("HUB", 8, 7, 14, view=False, emit="EmitHub", inv=INV, props=PROPS,
                                                  hubsizes="{5}", hubdels=2, huball=False), "hub-5-2del", timeout=3000)
+    # typed values, sequence-exhaustive: CREATE (:A {k: v0}); <write k = v1>; <write k = v2> with v over Integer 1, 2 and the
+    # numerically equal Floats 1.0, 2.0 and the write one of SET n.k = v / SET n += {k: v} / MERGE (n:A) ON MATCH SET n.k = v /
+    # MERGE (n:B) ON CREATE SET n.k = v ON MATCH SET n.k = v; the dump carries the type of every stored value ("i2" vs "f2")
+    typed = ctx.tlc_gen("MC_CypherWrite", gen("TYPED", 3, 1, 3, view=False, emit="EmitLeaf", inv=INV, props=PROPS), "typed", timeout=3000)
     walks = sim_walks(ctx, gen("C04", 8, 6, 6, view=False, emit="", inv=INV, rich=True, sim=True), "walks", 200 if q else 6000, 8)
     ctx.assume("graphs of <= 6 nodes / 4 relationships grown from the empty graph by the statements themselves; labels {A,B}, keys {k,p}, "
                "integer values; no constraints or indexes (C05 / C11 cover those)",
@@ -41,7 +45,8 @@ def run(ctx):
                "a stored null and an absent property are not distinguished; WITH only as MATCH (n) WITH n <write> (thorough tier and walks); "
                "relationship MERGE only between bound endpoints (MATCH (n..),(m..) MERGE (n)-[r:T]->(m)); FOREACH, path MERGE and "
                "SET n = {..} are not modelled")
-    for name, ss in (("cover", scripts), ("hub", hub), ("walks", walks)):
+    for name, ss in (("cover", scripts), ("hub", hub), ("typed", typed), ("walks", walks)):
         sp = ctx.write_scripts(name, ss)
-        tr = ctx.run_harness("cywrite", sp, name=name, args=["cap=14", "probes=1", "universe=i1,i2,i3"])
+        # typed family: no value-lookup probes (MATCH (n {k: 1}) finds 1.0 too: numeric equality is C01/C02's subject)
+        tr = ctx.run_harness("cywrite", sp, name=name, args=["cap=14", "probes=2" if name == "typed" else "probes=1", "universe=i1,i2,i3"])
         ctx.validate("CypherWrite_Trace", trace_cfg(10, 8, True), tr, name=name, corrupt=corrupt_dump)
